@@ -10,6 +10,7 @@ import errno
 import io
 import json
 import os
+_HERE = os.path.dirname(os.path.dirname(os.path.abspath(__file__)))
 import shutil
 import subprocess
 import sys
@@ -495,9 +496,9 @@ def invoke_subprocess(app, argv, cwd, step=None):
     repo = os.environ.get('NBDIME_REPO', '/repo')
     env = {k: v for k, v in os.environ.items() if not k.startswith(('JUPYTER', 'PYTHON', 'NBDIME'))}
     home = os.path.join(os.path.dirname(cwd), 'home')
-    env.update({'PYTHONPATH': repo + os.pathsep + '/verif/stubs', 'HOME': home, 'JUPYTER_CONFIG_DIR': os.path.join(home, '.jupyter'),
+    env.update({'PYTHONPATH': repo + os.pathsep + os.path.join(_HERE, 'stubs'), 'HOME': home, 'JUPYTER_CONFIG_DIR': os.path.join(home, '.jupyter'),
                 'JUPYTER_CONFIG_PATH': os.path.join(home, '.jupyter'), 'PYTHONDONTWRITEBYTECODE': '1', 'PYTHONIOENCODING': 'utf8'})
-    py = sys.executable or '/verif/.venv/bin/python'
+    py = sys.executable or os.path.join(_HERE, '.venv', 'bin', 'python')
     if step:
         cmd = [py, '-c', _BOOT, app, step] + list(argv)
     else:
